@@ -290,14 +290,23 @@ impl Harness {
     pub fn tick(&mut self) {
         if self.gate.real_syncer_active() {
             // the store's own syncer thread does the work; the channel occupancy tells what it sent
-            if self.gate.syncer_tick() {
-                let n = self.db().verif_num_writer_threads();
-                for t in 0..n {
-                    let len = self.db().verif_writer_queue_len(t) as i64;
-                    self.gate.set_writer_queue(t as u64, len);
+            match self.gate.syncer_tick() {
+                Some(alive) => {
+                    let n = self.db().verif_num_writer_threads();
+                    for t in 0..n {
+                        let len = self.db().verif_writer_queue_len(t) as i64;
+                        self.gate.set_writer_queue(t as u64, len);
+                    }
+                    self.ticks += 1;
+                    if !alive {
+                        self.probe("syncer_thread_left_its_loop");
+                        if self.prop == "C20" {
+                            self.violation("syncer-stopped-polling", "writer-pool-syncer", "workers-alive", "the syncer thread left its loop while the store was open: no writer thread gets a FlushPoll any more, so an append that is not synced inline waits until some later append happens to sync".into());
+                        }
+                    }
+                    return;
                 }
-                self.ticks += 1;
-                return;
+                None => {}
             }
         }
         let now = self.gate.now();
